@@ -28,6 +28,11 @@ def scenarios():
     S["client-options-step-scope"] = dict(
         model=scen.wf("m", [scen.step("s1", [scen.irq("a1", outputs={"t": None}), scen.irq("a2", **{"if": "t > 3"})], inputs={"t": 0}), scen.step("s2", [scen.irq("a3")])], outputs={}),
         inputs={}, declares={"t": "s1"}, outputs=[], answer={"a1": {"t": "$w", "z": 9}})
+    # an UNDECLARED option named like a variable of the enclosing scope (q) must not reach that scope, whichever action closes the act
+    S["client-options-shadowing"] = dict(
+        model=scen.wf("m", [scen.step("s1", [scen.irq("a1", outputs={"y": None})]), scen.step("s2", [scen.irq("a2", inputs={"seen": "{{ q }}"}, **{"if": "q < 50"})])],
+                      inputs={"y": 0, "q": 1}, outputs={"y": None, "q": None}),
+        inputs={}, declares={"y": "m", "q": "m"}, outputs=["y", "q"], answer={"a1": {"y": "$w", "q": 99}}, closing_kinds=["Next", "Submit", "Skip", "Remove"])
     S["interleaved-branches"] = dict(
         model=scen.wf("m", [scen.step("s1", branches=[
             scen.branch("b1", [scen.step("s11", [scen.setv("w1", {"x": "$v1"}), scen.irq("r1", **{"if": "x > 5"})])], **{"if": "true"}),
@@ -170,7 +175,11 @@ class DRun(Run):
                 if (not declared or k in declared) and not k.startswith("__"):
                     self.seq += 1
                     self.writes.append((self.seq, t["nid"], k, v))
-            r = W.action(self.pid, t["tid"], "Next", opts)
+            # the act is closed by complete, submit, skip or remove (all of them end it through Task::next): the option rules are the same
+            ckind = "Next"
+            if opts and self.spec.get("closing_kinds"):
+                ckind = self.spec["closing_kinds"][I.path.choose(len(self.spec["closing_kinds"]), "closing-kind")]
+            r = W.action(self.pid, t["tid"], ckind, opts)
             if r is None or r.d != 0:
                 del self.writes[mark:]
             W.drain()
@@ -252,7 +261,10 @@ class DRun(Run):
             kind, node = self.node_attr(nid)
             declared = set((node.get("outputs") or {}).keys())
             def stays_local(k):
-                # an act without declared outputs passes every option on; private keys never leave
+                # an act without declared outputs passes every option on; private keys never leave.  A key that an enclosing scope declares itself is
+                # there anyway: whether the option's VALUE got there is judged by the read-your-writes and output checks above.
+                if k in spec["declares"]:
+                    return False
                 return k.startswith("__") or (declared and k not in declared)
 
             for t in self.tasks():
